@@ -508,20 +508,34 @@ Proof.
   simpl. rewrite map_app, kinds_group, IH. reflexivity.
 Qed.
 
+Lemma arities_ops_for_gen : forall order s io oth,
+  op_arities (fst (ops_for order s io oth)) =
+  flat_map (fun k => match k with KControl => map arity (ctls_src s) | _ => [] end) order.
+Proof.
+  induction order as [|k r IH]; intros; [reflexivity|].
+  simpl. rewrite op_arities_app, arities_group, IH. reflexivity.
+Qed.
+
+Lemma exps_ops_for_gen : forall order s io oth,
+  op_exps (fst (ops_for order s io oth)) =
+  flat_map (fun k => match k with KPower => exps_src s | _ => [] end) order.
+Proof.
+  induction order as [|k r IH]; intros; [reflexivity|].
+  simpl. rewrite op_exps_app, exps_group, IH. reflexivity.
+Qed.
+
 Lemma arities_ops_for : forall order s io oth, perm3 order ->
   op_arities (fst (ops_for order s io oth)) = map arity (ctls_src s).
 Proof.
-  intros order s io oth H. unfold perm3 in H. simpl in H.
-  destruct H as [<-|[<-|[<-|[<-|[<-|[<-|[]]]]]]]; simpl ops_for; unfold fst at 1;
-    rewrite !op_arities_app, !arities_group; simpl; rewrite ?app_nil_r; reflexivity.
+  intros order s io oth H. rewrite arities_ops_for_gen. unfold perm3 in H. simpl in H.
+  destruct H as [<-|[<-|[<-|[<-|[<-|[<-|[]]]]]]]; simpl; rewrite ?app_nil_r; reflexivity.
 Qed.
 
 Lemma exps_ops_for : forall order s io oth, perm3 order ->
   op_exps (fst (ops_for order s io oth)) = exps_src s.
 Proof.
-  intros order s io oth H. unfold perm3 in H. simpl in H.
-  destruct H as [<-|[<-|[<-|[<-|[<-|[<-|[]]]]]]]; simpl ops_for; unfold fst at 1;
-    rewrite !op_exps_app, !exps_group; simpl; rewrite ?app_nil_r; reflexivity.
+  intros order s io oth H. rewrite exps_ops_for_gen. unfold perm3 in H. simpl in H.
+  destruct H as [<-|[<-|[<-|[<-|[<-|[<-|[]]]]]]]; simpl; rewrite ?app_nil_r; reflexivity.
 Qed.
 
 Lemma grouped_kinds_length : forall order s, perm3 order ->
@@ -533,3 +547,7 @@ Proof.
     rewrite ?app_nil_r, !app_length, kinds_filter_ctl, kinds_filter_pow, !map_length;
     destruct (dpar s); simpl; lia.
 Qed.
+
+Lemma compile_ops : forall order s caps c, compile_with order s caps = Some c ->
+  c_ops c = fst (ops_for order s (io_of caps) (oth_of caps)).
+Proof. intros order s caps c H. rewrite compile_with_spec in H. injection H as <-. reflexivity. Qed.
